@@ -799,6 +799,65 @@ def rule_intrinsic_modifiers(chk):
 
 
 
+def rule_local_constants(chk):
+    """Which locals are compile-time constants: parse_vardef read on model definitions (const / non-const type x
+    initialiser that folds / does not fold / is an aggregate / is absent). A local carries a constant value - and may then
+    stand where the language requires a constant expression: array sizes, case labels, template arguments - exactly when
+    its type is const and its initialiser is an expression that folds. A mutable local never does: its value at the point
+    of use is not the initialiser's."""
+    import interp as I
+    f = chk.facts
+    fn = f.fn("parse_vardef", "rssl_typer")
+    if not fn:
+        chk.note("C03.locals: parse_vardef not found; not decided")
+        return
+    ok = lambda v: I.Enum("Result", "Ok", {"0": v})
+    opt = lambda v: I.Enum("Option", "None") if v is None else I.Enum("Option", "Some", {"0": v})
+    loc = lambda v: I.Enum("Located", None, {"node": v, "location": I.Opaque("location")})
+    tid = lambda n_: I.Enum("TypeId", None, {"0": n_})
+
+    def deref(v):
+        return v.get() if isinstance(v, I.Ref) else v
+    PLAIN, CONST = 3, 7
+    inits = {"folds": I.Enum("Initializer", "Expression", {"0": I.Enum("Expression", "Tagged", {"folds": True})}),
+             "does-not-fold": I.Enum("Initializer", "Expression", {"0": I.Enum("Expression", "Tagged", {"folds": False})}),
+             "aggregate": I.Enum("Initializer", "Aggregate", {"0": []}), "absent": None}
+    n = 0
+    for tname, ty in (("mutable", PLAIN), ("const", CONST)):
+        for iname, init in inits.items():
+            got = []
+            ext = {"parse_localtype": lambda a, ty=ty: ok((tid(ty), I.Enum("LocalStorage", "Local"), False)),
+                   "parse_declarator": lambda a: ok((deref(a[1]), I.Enum("ScopedIdentifier", None, {"base": I.Enum("ScopedIdentifierBase", "Relative"), "identifiers": [loc("n")]}))),
+                   "parse_initializer_opt": lambda a, init=init: ok(opt(init)),
+                   "TypeRegistry::extract_modifier": lambda a: (tid(PLAIN), I.Enum("TypeModifier", None, {"is_const": deref(a[1]).fields["0"] == CONST, "volatile": False, "row_major": False, "column_major": False, "unorm": False, "snorm": False})),
+                   "evaluate_constexpr": lambda a: ok(I.Enum("Constant", "UInt32", {"0": 2})) if deref(a[0]).fields.get("folds") else I.Enum("Result", "Err", {"0": ()}),
+                   "register_local_variable": lambda a, got=got: got.append(deref(a[1])) or I.Enum("VariableId", None, {"0": 0}),
+                   "insert_variable": lambda a: ok(())}
+            vd = I.Enum("VarDef", None, {"local_type": I.Opaque("type"), "defs": [I.Enum("InitDeclarator", None, {"declarator": I.Opaque("declarator"), "location_annotations": [], "init": opt(None if init is None else I.Opaque("ast initializer"))})]})
+            ctx = I.Enum("Context", None, {"module": I.Enum("Module", None, {"type_registry": I.Opaque("type registry"), "variable_registry": I.Opaque("variable registry")})})
+            key = "C03.locals/constant/%s-%s" % (tname, iname)
+            try:
+                r = I.Interp(f, max_depth=6, extern=ext).apply(fn, [vd, ctx])
+            except I.Unknown as e:
+                if "panicking" in str(e):
+                    chk.ob(key, False, "parse_vardef aborts on a %s local whose initialiser %s (%s)" % (tname, iname, str(e)[:60]), where(fn))
+                else:
+                    chk.unreadable(key, "parse_vardef on a model definition", str(e)[:100], where(fn))
+                continue
+            n += 1
+            if not (isinstance(r, I.Enum) and r.variant == "Ok" and len(got) == 1 and isinstance(got[0], I.Enum)):
+                chk.ob(key, False, "parse_vardef refuses / does not register a %s local whose initialiser %s" % (tname, iname), where(fn))
+                continue
+            cv = got[0].fields.get("constexpr_value")
+            has = isinstance(cv, I.Enum) and cv.variant == "Some"
+            want = ty == CONST and iname == "folds"
+            chk.ob(key, has == want, ("carries its constant value" if want else "is not a compile-time constant") if has == want else
+                   ("a %s local whose initialiser %s is registered with a constant value: it is accepted as an array size, case label or template argument although %s"
+                    % (tname, iname, "its value can change before the use" if ty == PLAIN else "no constant was computed") if has else
+                    "a const local with a folding initialiser is registered without its constant value: `const uint n = 2; float a[n];` is refused"), where(fn), sample={"type": tname, "initialiser": iname})
+    chk.floor("C03.floor/local-definitions", n, 8, "local definitions evaluated", where(fn))
+
+
 def rule_global_type(chk):
     """parse_globaltype read as a table over the storage-class keywords a global can be written with (none, extern,
     static, groupshared, each with and without const, repeated, and conflicting pairs): the storage class is the one
@@ -937,6 +996,7 @@ def run(chk):
     rule_intrinsic_modifiers(chk)
     rule_param_variables(chk)
     rule_global_type(chk)
+    rule_local_constants(chk)
     if not rb:
         rule_assign(chk)
     if not ru:
